@@ -17,6 +17,7 @@ import (
 	"io"
 	"net"
 	"net/netip"
+	"runtime"
 	"sync"
 	"sync/atomic"
 	"testing"
@@ -622,6 +623,150 @@ func vfC09Run(e *vfEnv, r *vfResult, idx int) { //nolint:cyclop,maintidx
 	}
 }
 
+// vfC09ActiveTCP: the TCP connections behind active ICE-TCP candidates (opened towards a remote passive candidate, over
+// the real loopback interface) are closed when their candidate goes away: the listener side must see every accepted
+// connection end after Restart / Close, and the process must hold no more descriptors than before.
+func vfC09ActiveTCP(e *vfEnv, r *vfResult, idx int) { //nolint:cyclop
+	rng := e.rng(idx, "c09activetcp")
+	fdBefore := vfFDCount()
+	ln, err := net.Listen("tcp4", "127.0.0.1:0")
+	if err != nil {
+		r.inconclusive(1)
+
+		return
+	}
+	var mu sync.Mutex
+	accepted, ended := 0, 0
+	var awg sync.WaitGroup
+	awg.Add(1)
+	go func() {
+		defer awg.Done()
+		for {
+			c, err := ln.Accept()
+			if err != nil {
+				return
+			}
+			mu.Lock()
+			accepted++
+			mu.Unlock()
+			awg.Add(1)
+			go func() {
+				defer awg.Done()
+				buf := make([]byte, 2048)
+				_ = c.SetReadDeadline(time.Now().Add(30 * time.Second))
+				for {
+					if _, err := c.Read(buf); err != nil {
+						break
+					}
+				}
+				_ = c.Close()
+				mu.Lock()
+				ended++
+				mu.Unlock()
+			}()
+		}
+	}()
+	a, err := NewAgent(&AgentConfig{CandidateTypes: []CandidateType{CandidateTypeHost}, NetworkTypes: []NetworkType{NetworkTypeUDP4, NetworkTypeTCP4}, IncludeLoopback: true,
+		InterfaceFilter: func(n string) bool { return n == "lo" }, MulticastDNSMode: MulticastDNSModeDisabled, LoggerFactory: vfQuietLogger()})
+	if err != nil {
+		_ = ln.Close()
+		r.inconclusive(1)
+
+		return
+	}
+	_ = a.OnCandidate(func(Candidate) {})
+	if rng.IntN(2) == 0 {
+		_ = a.GatherCandidates()
+	}
+	port := ln.Addr().(*net.TCPAddr).Port //nolint:forcetypeassert
+	addPassive := func() {
+		if rc, err := NewCandidateHost(&CandidateHostConfig{Network: "tcp", Address: "127.0.0.1", Port: port, Component: 1, TCPType: TCPTypePassive, Priority: uint32(1000 + rng.IntN(100000))}); err == nil { //nolint:gosec
+			_ = a.AddRemoteCandidate(rc)
+		}
+	}
+	waitAccepted := func(n int) {
+		for dl := time.Now().Add(3 * time.Second); time.Now().Before(dl); time.Sleep(100 * time.Microsecond) {
+			mu.Lock()
+			ok := accepted >= n
+			mu.Unlock()
+			if ok {
+				return
+			}
+		}
+	}
+	addPassive()
+	if rng.IntN(2) == 0 {
+		t0 := time.Now()
+		waitAccepted(1) // otherwise the teardown races the dial
+		r.count("c09_active_tcp_wait_first_ms", time.Since(t0).Milliseconds())
+		mu.Lock()
+		if accepted == 0 {
+			r.count("c09_active_tcp_no_connection_within_3s", 1)
+		}
+		mu.Unlock()
+	}
+	script := []string{"close", "restart-close", "restart-add-close", "graceful"}[rng.IntN(4)]
+	tClose := time.Now()
+	defer func() { r.count("c09_active_tcp_teardown_ms:"+script, time.Since(tClose).Milliseconds()) }()
+	switch script {
+	case "close":
+		_ = a.Close()
+	case "graceful":
+		_ = a.GracefulClose()
+	case "restart-close":
+		_ = a.Restart("", "")
+		_ = a.Close()
+	case "restart-add-close":
+		_ = a.Restart("", "")
+		mu.Lock()
+		before := accepted
+		mu.Unlock()
+		addPassive()
+		if rng.IntN(2) == 0 {
+			waitAccepted(before + 1)
+		}
+		_ = a.Close()
+	}
+	r.eval(1)
+	// every connection the listener accepted must end (the agent closed its side)
+	okEnd := false
+	var acc, end int
+	for dl := time.Now().Add(10 * time.Second); time.Now().Before(dl); time.Sleep(200 * time.Microsecond) {
+		mu.Lock()
+		acc, end = accepted, ended
+		mu.Unlock()
+		if acc == end {
+			// a dial that was in flight at Close may still land: settle
+			time.Sleep(2 * time.Millisecond)
+			mu.Lock()
+			okEnd = accepted == ended
+			mu.Unlock()
+			if okEnd {
+				break
+			}
+		}
+	}
+	wit := map[string]any{"idx": idx, "script": script, "accepted": acc, "ended": end}
+	if !okEnd {
+		r.violation("active-tcp-connection-left-open:"+script, fmt.Sprintf("%s: the remote listener accepted %d connection(s) from active TCP candidates; 10 s after the agent was closed only %d had ended", script, acc, end), wit)
+	}
+	_ = ln.Close()
+	awg.Wait()
+	runtime.GC()
+	fdAfter := vfFDCount()
+	for i := 0; i < 400 && fdAfter > fdBefore; i++ {
+		time.Sleep(5 * time.Millisecond)
+		fdAfter = vfFDCount()
+	}
+	if okEnd && fdBefore >= 0 && fdAfter > fdBefore {
+		r.violation("active-tcp-fd-leak:"+script, fmt.Sprintf("%s: %d file descriptors before, %d after the agent was closed", script, fdBefore, fdAfter), wit)
+	}
+	if acc > 0 {
+		r.count("c09_active_tcp_connections_seen", int64(acc))
+	}
+	r.distinct(fmt.Sprintf("activetcp/%s/accepted=%d", script, acc))
+}
+
 func TestVerifC09(t *testing.T) {
 	vfRun(t, "C09", func(e *vfEnv, r *vfResult) {
 		n := e.n(1600, 60000)
@@ -630,6 +775,16 @@ func TestVerifC09(t *testing.T) {
 				continue
 			}
 			vfC09Run(e, r, i)
+		}
+		// warm-up of the runtime's own descriptors (poller) before the fd census
+		if ln, err := net.Listen("tcp4", "127.0.0.1:0"); err == nil {
+			if c, err := net.Dial("tcp4", ln.Addr().String()); err == nil {
+				_ = c.Close()
+			}
+			_ = ln.Close()
+		}
+		for i := 0; i < e.n(60, 2400); i++ {
+			vfC09ActiveTCP(e, r, i)
 		}
 	})
 }
